@@ -90,10 +90,11 @@ structure Sess where
   aUnp : Option Unp := none
   vUnp : Option Unp := none
 
-/-- `LogicContext.IsAudioUnpackable` -/
+/-- `LogicContext.IsAudioUnpackable`: false without an audio media description (the zero value of
+    `audioPayloadTypeBase` equals `AvPacketPtG711U`) -/
 def isAudioUnpackable (c : LogicContext) : Bool :=
-  (c.audioPayloadTypeBase = ptAac ∧ c.asc.isSome) ∨ c.audioPayloadTypeBase = ptG711A ∨ c.audioPayloadTypeBase = ptG711U
-    ∨ c.audioPayloadTypeBase = ptOpus
+  c.hasAudio && decide ((c.audioPayloadTypeBase = ptAac ∧ c.asc.isSome) ∨ c.audioPayloadTypeBase = ptG711A ∨ c.audioPayloadTypeBase = ptG711U
+    ∨ c.audioPayloadTypeBase = ptOpus)
 
 /-- `LogicContext.IsVideoUnpackable` -/
 def isVideoUnpackable (c : LogicContext) : Bool :=
